@@ -457,7 +457,7 @@ pub fn run(ctx: &Ctx) -> Report {
         }
     }
     total.merge(st);
-    // 48 threads parsing groups nested to the bound at the same moment: the verdict on one thread
+    // 48 threads parsing 400-deep groups at the same moment (large stacks): the verdict on one thread
     // must not depend on what other threads are parsing (budgets or flags shared between threads)
     let mut st = Stats::new();
     {
@@ -468,7 +468,7 @@ pub fn run(ctx: &Ctx) -> Report {
         for k in 0..nthreads {
             let barrier = barrier.clone();
             let h = std::thread::Builder::new().stack_size(256 << 20).spawn(move || {
-                let depth = 64 - (k % 3);
+                let depth = 400 - (k % 3);
                 let mut ws = vec![];
                 for i in 0..depth {
                     ws.push(if k % 2 == 0 || i % 2 == 0 { W::LP } else { W::Not });
@@ -500,7 +500,7 @@ pub fn run(ctx: &Ctx) -> Report {
                     let v = match (bad, alone) {
                         (_, Verdict::Fail(m)) => Verdict::Fail(m),
                         (Some(m), _) => Verdict::Fail(m),
-                        (None, _) => Verdict::Pass { nt: true, class: "groups nested to the bound, parsed by 48 threads at once" },
+                        (None, _) => Verdict::Pass { nt: true, class: "400-deep groups parsed by 48 threads at once" },
                     };
                     st.record(&v, stable_hash(&(k, "concurrent-nesting")), true, || json!({"kind": "words", "text": format!("thread {k}: nested groups parsed concurrently"), "words": ws.iter().map(word_text).collect::<Vec<_>>()}));
                 }
